@@ -590,23 +590,48 @@ def _entry(ctx, model, dm):
             var = pos[0] if pos else kw.get("variable")
             setting = pos[2] if len(pos) > 2 else kw.get("allowed_nonsmoothness")
             fm = pos[1] if len(pos) > 1 else kw.get("func_mapper")
-            # was the variable already a node on this path?
-            is_node = None
-            for _, pol, v in ps.conds:
-                while isinstance(v, tuple) and v[0] == "unop" and v[1] == "Not":
-                    v, pol = v[2], not pol
-                if isinstance(v, tuple) and v[0] == "call" and \
-                        v[1] == "isinstance" and v[2][0] == ("param", "variable"):
-                    is_node = pol
-            norm = ("call", "primitives.make_variable", (("param", "variable"),),
-                    ())
+            # what is known about the class of `variable` on this path
+            from ..summary import facts_of
+            VAR = ("param", "variable")
+
+            def classes(c):
+                if c[0] == "lit" and c[1] == "tuple":
+                    return {x for y in c[2] for x in classes(y)}
+                if c[0] == "attr":
+                    return {c[2]}
+                if c[0] == "global":
+                    return {c[1]}
+                raise AnalysisError("differentiate(): class test not "
+                                    f"understood: {c}")
+            known_node = known_not_name = known_name = False
+            for _, pol0, v0 in ps.conds:
+                if not isinstance(v0, tuple):
+                    continue
+                for v, pol in facts_of(v0, pol0):
+                    if isinstance(v, tuple) and v[0] == "call" and \
+                            v[1] == "isinstance" and v[2][0] == VAR:
+                        cl = classes(v[2][1])
+                        if cl <= {"Variable", "Subscript"}:
+                            if pol:
+                                known_node = True
+                            else:
+                                known_name = True    # everything else is
+                                # taken for a name, as the entry point does
+                        elif cl == {"str"}:
+                            if pol:
+                                known_name = True
+                            else:
+                                known_not_name = True
+                        else:
+                            raise AnalysisError(
+                                "differentiate(): unexpected class test on "
+                                f"the variable: {sorted(cl)}")
+            converts = var is not None and var[0] == "call" and \
+                var[1].endswith("make_variable") and var[2] == (VAR,)
             good = setting == SET and fm == ("param", "func_mapper") and (
-                (is_node is True and var == ("param", "variable")) or
-                (is_node is False and var is not None and var[0] == "call"
-                 and var[1].endswith("make_variable")
-                 and var[2] == (("param", "variable"),)) or
-                (is_node is None and var is not None and var[0] == "call"
-                 and var[1].endswith("make_variable")))
+                (var == VAR and (known_node or known_not_name)
+                 and not known_name) or
+                (converts and not known_node))
         ok = ok and good
     ok = ok and n_ret >= 1
     ctx.ob("P/differentiate/entry", ok, m.loc(fn),
